@@ -55,7 +55,7 @@ impl<'a> std::io::Write for Limited<'a> {
 #[repr(C)]
 struct GuardedArray<const N: usize> { left: [u8; G], cur: Cursor<[u8; N]>, right: [u8; G] }
 
-enum Call<'a> { Raw(Vec<Vec<u8>>), Enc(&'a [&'a str]), Val(&'a str), Iter(&'a str, &'a str, Vec<u32>) }
+enum Call<'a> { Raw(Vec<Vec<u8>>), Enc(&'a [&'a str]), Val(&'a str), Iter(&'a str, &'a str, Vec<u32>), Tok(&'a str) }
 
 /// one Encoder method call `name[:arg]`.
 fn apply<W: Write>(e: &mut Encoder<W>, call: &str) -> Option<Result<(), Error<W::Error>>> {
@@ -115,6 +115,14 @@ fn drive<W: Write>(w: W, call: &Call) -> Option<(String, W)> {
             Some((status, e.into_writer()))
         }
         Call::Val(v) => with_value(v, EncInto(w)),
+        Call::Tok(list) => {
+            // ONE `Encoder::tokens` call with the whole list (indefinite containers open when the sink runs out)
+            let owned: Vec<crate::tokop::OTok> = if *list == "-" { Vec::new() } else { list.split(',').map(crate::tokop::parse).collect::<Option<_>>()? };
+            let toks: Vec<minicbor::data::Token<'_>> = owned.iter().map(crate::tokop::OTok::borrow).collect();
+            let mut e = Encoder::new(w);
+            let st = match e.tokens(toks.iter()) { Ok(()) => "ok".to_string(), Err(x) => format!("err {}", eclass(&x)) };
+            Some((st, e.into_writer()))
+        }
         Call::Iter(kind, mode, vals) => {
             // `encode::ArrayIter` / `MapIter` over iterators whose size hint is exact, loose (upper bound only) or over-estimating
             use minicbor::encode::{ArrayIter, MapIter};
@@ -437,6 +445,13 @@ pub fn run_val(w: &[&str]) -> String {
     if w.len() != 3 { return "bad-op".into() }
     let cap = match w[1].parse::<usize>() { Ok(c) => c, Err(_) => return "bad-op".into() };
     match run_kind(w[0], cap, &Call::Val(w[2])) { Some(s) => s, None => "bad-op".into() }
+}
+
+/// `sinktok <kind> <cap> <tok>,<tok>,…`: the token list through one `Encoder::tokens` call into the sink
+pub fn run_tok(w: &[&str]) -> String {
+    if w.len() != 3 { return "bad-op".into() }
+    let cap = match w[1].parse::<usize>() { Ok(c) => c, Err(_) => return "bad-op".into() };
+    match run_kind(w[0], cap, &Call::Tok(w[2])) { Some(s) => s, None => "bad-op".into() }
 }
 
 pub fn run_enc(w: &[&str]) -> String {
